@@ -30,11 +30,11 @@ Proof. destruct b; cbn; intros; try reflexivity; discriminate. Qed.
 Lemma base_size_pos' b : is_text b = false -> (0 < base_size b)%nat.
 Proof. destruct b; cbn; intros; try lia; discriminate. Qed.
 
-Lemma u_fixed_sound be b buf off nf d n c1 : bytes_ok buf ->
-  u_read_fixed be (base_size b) {| ubuf := buf; uoff := off; unfds := nf; udepth := d |} = Ok (n, c1) ->
+Lemma u_fixed_sound be b buf off nf d0 d n c1 : bytes_ok buf ->
+  u_read_fixed be (base_size b) {| ubuf := buf; uoff := off; unfds := nf; udepth := d0 |} = Ok (n, c1) ->
   is_text b = false -> (b = BBoolean -> n < 2) ->
   denotes be d buf off (uoff c1 - off) (VBase b n) (TBase b)
-  /\ c1 = set_off {| ubuf := buf; uoff := off; unfds := nf; udepth := d |} (uoff c1) /\ off <= uoff c1.
+  /\ c1 = set_off {| ubuf := buf; uoff := off; unfds := nf; udepth := d0 |} (uoff c1) /\ off <= uoff c1.
 Proof.
   intros Hb E Ht Hbool. destruct (u_read_fixed_ok _ _ _ _ _ (base_size_pos' b Ht) E) as (-> & Hl & Hz & ->).
   cbv zeta in *. cbn [ubuf uoff set_off] in *. rewrite <- (base_align_size b Ht) in *.
@@ -43,11 +43,11 @@ Proof.
   pose proof (denotes_fixed be d buf off b Ht Hb) as Hd. cbv zeta in Hd. rewrite <- (base_align_size b Ht) in Hd.
   apply Hd; try assumption.
 Qed.
-Lemma u_str_sound be b buf off nf d s c1 : bytes_ok buf ->
-  u_read_str be {| ubuf := buf; uoff := off; unfds := nf; udepth := d |} = Ok (s, c1) ->
+Lemma u_str_sound be b buf off nf d0 d s c1 : bytes_ok buf ->
+  u_read_str be {| ubuf := buf; uoff := off; unfds := nf; udepth := d0 |} = Ok (s, c1) ->
   (b = BString \/ b = BObjectPath /\ valid_path s = true) ->
   denotes be d buf off (uoff c1 - off) (VText b s) (TBase b)
-  /\ c1 = set_off {| ubuf := buf; uoff := off; unfds := nf; udepth := d |} (uoff c1) /\ off <= uoff c1.
+  /\ c1 = set_off {| ubuf := buf; uoff := off; unfds := nf; udepth := d0 |} (uoff c1) /\ off <= uoff c1.
 Proof.
   intros Hb E Hbs. unfold u_read_str in E.
   destruct (u_align 4 _) as [c0| | | |] eqn:Ea; cbn [bind] in E; try discriminate.
@@ -58,19 +58,21 @@ Proof.
   apply denotes_string; assumption.
 Qed.
 
-Lemma u_base_sound be b c v c' : bytes_ok (ubuf c) -> u_base be b c = Ok (v, c') -> decoded be c v c' (TBase b).
+Lemma u_base_sound_d be b c v c' d : bytes_ok (ubuf c) -> u_base be b c = Ok (v, c') ->
+  denotes be d (ubuf c) (uoff c) (uoff c' - uoff c) v (TBase b)
+  /\ c' = set_off c (uoff c') /\ uoff c <= uoff c' /\ fds_lt (unfds c) v = true.
 Proof.
-  intros Hb. destruct c as [buf off nf d]. cbn [ubuf] in Hb. unfold decoded. cbn [ubuf uoff unfds udepth].
+  intros Hb. destruct c as [buf off nf d0]. cbn [ubuf] in Hb. cbn [ubuf uoff unfds udepth].
   destruct b; cbn [u_base] in *;
     try (intros H; destruct (u_read_fixed be _ _) as [[n c1]| | | |] eqn:E; cbn [bind fst snd] in H; try discriminate;
-         injection H as <- <-; destruct (u_fixed_sound _ _ _ _ _ _ _ _ Hb E eq_refl ltac:(discriminate)) as (H1 & H2 & H3); auto).
+         injection H as <- <-; destruct (u_fixed_sound _ _ _ _ _ _ d _ _ Hb E eq_refl ltac:(discriminate)) as (H1 & H2 & H3); auto).
   - (* fd *)
     intros H. destruct (u_read_fixed be _ _) as [[n c1]| | | |] eqn:E; cbn [bind fst snd] in H; try discriminate.
     cbn [unfds] in H. destruct (N.leb_spec nf n) as [|Hn]; [discriminate|]. injection H as <- <-.
-    destruct (u_fixed_sound _ BUnixFd _ _ _ _ _ _ Hb E eq_refl ltac:(discriminate)) as (H1 & H2 & H3). cbn [fds_lt]. apply N.ltb_lt in Hn. auto.
+    destruct (u_fixed_sound _ BUnixFd _ _ _ _ d _ _ Hb E eq_refl ltac:(discriminate)) as (H1 & H2 & H3). cbn [fds_lt]. apply N.ltb_lt in Hn. auto.
   - (* string *)
     intros H. destruct (u_read_str be _) as [[s c1]| | | |] eqn:E; cbn [bind fst snd] in H; try discriminate.
-    injection H as <- <-. destruct (u_str_sound _ BString _ _ _ _ _ _ Hb E (or_introl eq_refl)) as (H1 & H2 & H3). auto.
+    injection H as <- <-. destruct (u_str_sound _ BString _ _ _ _ d _ _ Hb E (or_introl eq_refl)) as (H1 & H2 & H3). auto.
   - (* signature *)
     intros H. unfold u_read_sig in H. cbn [ubuf uoff] in H.
     destruct (unmarshal_signature buf off) as [[k s]| | | |] eqn:Es; cbn [bind fst snd] in H; try discriminate.
@@ -80,12 +82,14 @@ Proof.
   - (* object path *)
     intros H. destruct (u_read_str be _) as [[s c1]| | | |] eqn:E; cbn [bind fst snd] in H; try discriminate.
     destruct (valid_path s) eqn:Ev; [|discriminate].
-    injection H as <- <-. destruct (u_str_sound _ BObjectPath _ _ _ _ _ _ Hb E (or_intror (conj eq_refl Ev))) as (H1 & H2 & H3). auto.
+    injection H as <- <-. destruct (u_str_sound _ BObjectPath _ _ _ _ d _ _ Hb E (or_intror (conj eq_refl Ev))) as (H1 & H2 & H3). auto.
   - (* boolean *)
     intros H. destruct (u_read_fixed be _ _) as [[n c1]| | | |] eqn:E; cbn [bind fst snd] in H; try discriminate.
     destruct (N.ltb_spec n 2) as [Hn|]; [|discriminate]. injection H as <- <-.
-    destruct (u_fixed_sound _ BBoolean _ _ _ _ _ _ Hb E eq_refl (fun _ => Hn)) as (H1 & H2 & H3). auto.
+    destruct (u_fixed_sound _ BBoolean _ _ _ _ d _ _ Hb E eq_refl (fun _ => Hn)) as (H1 & H2 & H3). auto.
 Qed.
+Lemma u_base_sound be b c v c' : bytes_ok (ubuf c) -> u_base be b c = Ok (v, c') -> decoded be c v c' (TBase b).
+Proof. intros Hb H. exact (u_base_sound_d be b c v c' (udepth c) Hb H). Qed.
 
 (** ** the loops *)
 Lemma sub_loop_chain {A} (R : N -> N -> A -> Prop) (one : uctx -> outcome (A * uctx)) (c0 : uctx) :
